@@ -44,6 +44,12 @@ pub enum T {
     DecrCur,
     AppendCur,
     PrependCur,
+    /// the same guarded commands with operands that do not depend on the client: two clients send
+    /// byte-identical requests (a retry, two workers doing the same job)
+    IncrCurSame,
+    DecrCurSame,
+    AppendCurSame,
+    PrependCurSame,
     /// append / prepend carrying a CAS that does not match (refused)
     AppendStale,
     PrependStale,
@@ -79,6 +85,10 @@ pub fn instantiate(t: T, client: usize, key: &[u8], other: &[u8]) -> Cmd {
         T::DecrCur => Cmd::Delta { incr: false, key: k, delta: 1 + client as u64, initial: 100, exp: 0, cas: CasArg::Current, quiet: false },
         T::AppendCur => Cmd::Concat { append: true, key: k, value: tag("+"), cas: CasArg::Current, quiet: false },
         T::PrependCur => Cmd::Concat { append: false, key: k, value: tag("-"), cas: CasArg::Current, quiet: false },
+        T::IncrCurSame => Cmd::Delta { incr: true, key: k, delta: 1, initial: 100, exp: 0, cas: CasArg::Current, quiet: false },
+        T::DecrCurSame => Cmd::Delta { incr: false, key: k, delta: 1, initial: 100, exp: 0, cas: CasArg::Current, quiet: false },
+        T::AppendCurSame => Cmd::Concat { append: true, key: k, value: b"+".to_vec(), cas: CasArg::Current, quiet: false },
+        T::PrependCurSame => Cmd::Concat { append: false, key: k, value: b"-".to_vec(), cas: CasArg::Current, quiet: false },
         T::AppendStale => Cmd::Concat { append: true, key: k, value: tag("+"), cas: CasArg::Stale1, quiet: false },
         T::PrependStale => Cmd::Concat { append: false, key: k, value: tag("-"), cas: CasArg::Stale1, quiet: false },
         T::SetNew => Cmd::Store { kind: StoreKind::Set, key: format!("new{}", client).into_bytes(), value: tag("N"), flags: 80, ttl: 0, cas: CasArg::Zero, quiet: false },
@@ -247,6 +257,11 @@ pub fn c04_families(tier: Tier) -> Vec<Family> {
             }
             progs.push(mk(Init::Present, vec![vec![*g], vec![*o]], K, K, keys.clone(), Policy::None));
         }
+    }
+    // two clients sending the very same guarded command (same operand, same token): still only one wins
+    for g in [T::IncrCurSame, T::DecrCurSame, T::AppendCurSame, T::PrependCurSame] {
+        progs.push(mk(Init::Present, vec![vec![g], vec![g]], K, K, keys.clone(), Policy::None));
+        progs.push(mk(Init::Present, vec![vec![g], vec![g], vec![T::Get]], K, K, keys.clone(), Policy::None));
     }
     // the version the guarded command read is deleted and the key stored afresh in between: the new
     // item is a different one, whatever token it got (ABA)
